@@ -18,17 +18,17 @@ CHECKS = {
    "5/C02"),
  "C04": ("exploration",
    "runtime monitor: porcupine linearizability check of concurrent histories recorded at the signer boundary against Dirk's learned sequential semantics; slashability oracle; race detector; hook-steered overlaps",
-   "Short, heavily contended concurrent histories (single and batch requests over 3 shared keys) are recorded at the signer.Service boundary with call/return stamps and, together with a final state read, checked by porcupine against an unpartitioned multi-key model whose step function is the real rules' single-threaded behaviour. A verifhook handler parks requests between their read and write while a rival is in flight so that broken locking becomes an overlap. An independent-clients phase runs 12 clients side by side, each sequential on two private keys and judged against the sequential specification, so that state shared below the per-key locks becomes visible. Some requests are abandoned by their client (context cancelled) exactly between their read and their write; a FAILED/UNKNOWN answer is modelled as an indeterminate operation that stays open (nondeterministic porcupine model). A wire slice records histories over TLS/gRPC against the real daemon and takes the final reads from its database after it stops. The same workload runs under the Go race detector. Held on the interleavings observed (thousands of overlapping same-key pairs per run), not on all schedules.",
+   "Short, heavily contended concurrent histories (single and batch requests over 3 shared keys) are recorded at the signer.Service boundary with call/return stamps and, together with a final state read, checked by porcupine against an unpartitioned multi-key model whose step function is the real rules' single-threaded behaviour. A verifhook handler parks requests between their read and write while a rival is in flight so that broken locking becomes an overlap. An independent-clients phase runs 12 clients side by side, each sequential on two private keys and judged against the sequential specification, so that state shared below the per-key locks becomes visible; several clients send batches over the same 130..600 keys in different orders, and the per-key winners must all be one client. Some requests are abandoned by their client (context cancelled) exactly between their read and their write; a FAILED/UNKNOWN answer is modelled as an indeterminate operation that stays open (nondeterministic porcupine model). A wire slice records histories over TLS/gRPC against the real daemon and takes the final reads from its database after it stops. The same workload runs under the Go race detector. Held on the interleavings observed (thousands of overlapping same-key pairs per run), not on all schedules.",
    "Trusted: porcupine v1.3.0; the learned table (real code run sequentially); monotonic clock stamps taken outside the call.",
    "5/C04"),
  "C05": ("exploration",
    "runtime monitor: domain-type / admin-IP oracle over all five signing endpoints at service and handler boundaries",
-   "Thousands of requests covering endpoint x domain-type class (incl. look-alikes and lengths != 32 over the wire) x admin-IP list x source address class x batch position; a wire slice drives the real daemon with server.rules.admin-ips set while the client binds different loopback source addresses (real SourceIP interceptor); multisign batches repeat the same data under several domains; the monitor asserts that generic/multi never return a signature under attester/proposer types (nor one that verifies under them or under the restricted domain another entry of the request carried), exits only from listed addresses, and that the protected endpoints refuse foreign types without touching stored state.",
+   "Thousands of requests covering endpoint x domain-type class (incl. look-alikes and lengths != 32 over the wire) x admin-IP list x source address class x batch position; a wire slice drives the real daemon with server.rules.admin-ips set (two lists: without and with the daemon's own listening address) while the client binds different loopback source addresses (real SourceIP interceptor); multisign batches repeat the same data under several domains; the monitor asserts that generic/multi never return a signature under attester/proposer types (nor one that verifies under them or under the restricted domain another entry of the request carried), exits only from listed addresses, and that the protected endpoints refuse foreign types without touching stored state.",
    "Trusted: harness signing-root code; the IP in the credentials stands in for the SourceIP interceptor at the in-process boundary.",
    "5/C05"),
  "C08": ("exploration",
    "runtime monitor: independent BLS verification of every returned signature over harness-computed signing roots, across batch sizes x GOMAXPROCS; race detector on batch paths",
-   "Every signature returned for well-formed random requests (single and batches of 24 sizes from 1 to 511, GOMAXPROCS 1..61, service and handler boundary, by name/key/over-long key) is verified with herumi directly under the addressed account's key over a signing root computed by the harness's own SSZ code, and must not verify under a neighbouring account of the batch; response lengths must equal request lengths; multisign batches repeat data across entries under different domains; batches also carry marker entries (attestations no rule can approve) whose positions must keep their own negative verdict. Batch paths also run under the race detector.",
+   "Every signature returned for well-formed random requests (single and batches of 24 sizes from 1 to 511, GOMAXPROCS 1..61, service and handler boundary, by name/key/over-long key) is verified with herumi directly under the addressed account's key over a signing root computed by the harness's own SSZ code, and must not verify under a neighbouring account of the batch; response lengths must equal request lengths; a slice on real wallets behind the real fetcher uses account names that contain the path separator next to accounts named after their prefixes; multisign batches repeat data across entries under different domains; batches also carry marker entries (attestations no rule can approve) whose positions must keep their own negative verdict. Batch paths also run under the race detector.",
    "Trusted: harness SSZ code, herumi VerifyByte.",
    "5/C08"),
  "C09": ("exploration",
@@ -43,7 +43,7 @@ CHECKS = {
    "5/C03"),
  "C06": ("fault_enumeration",
    "fault injection at every dependency seam (interposers + verifhook + undecodable records + OS-level write failure + closed store) with a per-position signature-iff-SUCCEEDED oracle",
-   "Every single fault of 23 kinds is injected for each of the five request kinds, batch sizes {1,2,5,17} and every position, at service and handler boundary; then seeded multi-fault sequences, a handler-only matrix over a stub signer, a closed store, a store closed under load (child; signatures that left it are re-verified against the reopened store), a value log whose descriptor is made unwritable, and arguments that cannot be decided handed to the real signer service and ruler (absent credentials, data, checkpoints, identifiers; unknown actions; data of the wrong type). The oracle: signature iff SUCCEEDED at every position and no signature where a fault fired. A fault whose injector never fired fails the run as inconclusive.",
+   "Every single fault of 23 kinds is injected for each of the five request kinds, batch sizes {1,2,5,17} and every position, at service and handler boundary; then seeded multi-fault sequences, a handler-only matrix over a stub signer, a closed store, a store closed under load (child; signatures that left it are re-verified against the reopened store), a value log whose descriptor is made unwritable, one request parked between its read and its write while the store closes over a populated memtable (the reopened store must cover any signature that left), and arguments that cannot be decided handed to the real signer service and ruler (absent credentials, data, checkpoints, identifiers; unknown actions; data of the wrong type). The oracle: signature iff SUCCEEDED at every position and no signature where a fault fired. A fault whose injector never fired fails the run as inconclusive.",
    "Faults are those producible through exported interfaces, the storage hook and the OS; values outside the four rule results are not injected.",
    "5/C06"),
  "C07": ("exploration",
@@ -53,7 +53,7 @@ CHECKS = {
    "5/C07"),
  "C10": ("exploration",
    "runtime monitor over the real CLI: never-lowers / covers-maxima / boundary-probe oracle after every import run; in-process imports with injected storage write failures",
-   "Sequences of imports through the real executable against databases holding real prior decisions; generated files (repeated keys, mixed blocks/attestations, per-field older/equal/newer, malformed numbers/keys, wrong metadata). After each run the database is reopened: no field lower than before; on exit 0 every field covers the maxima of file and history and the boundary requests are refused by the real rules; wrong metadata must fail and change nothing. Keys include opaque 48-byte values with leading zero nibbles/bytes. A second slice runs the real import in-process while the n-th storage write fails (verifhook): it must never lower a record, and may report success only if every value of the file is recorded.",
+   "Sequences of imports through the real executable against databases holding real prior decisions; generated files (repeated keys, mixed blocks/attestations, per-field older/equal/newer, malformed numbers/keys, wrong metadata). After each run the database is reopened: no field lower than before; on exit 0 every field covers the maxima of file and history and the boundary requests are refused by the real rules; wrong metadata must fail and change nothing. Keys include opaque 48-byte values with leading zero nibbles/bytes; numbers are also spelled with leading zeros or a plus sign. A second slice runs the real import in-process while the n-th storage write fails (verifhook): it must never lower a record, and may report success only if every value of the file is recorded.",
    "Decisions probed at rules.Service on the same directory.",
    "5/C10"),
  "C11": ("exploration",
@@ -63,7 +63,7 @@ CHECKS = {
    "5/C11"),
  "C15": ("exploration",
    "runtime monitor: shadow wait-for graph on an interposed locker with cycle detection, directed schedule steering, stress with injected yields, progress watchdog, race detector",
-   "Liveness is restated as no wait-for cycle + bounded progress. Pairs of batches over ordered key selections are steered (A parked after its i-th lock until B reaches its j-th or a budget expires) for every position pair; 32 goroutines add random load with yields inside the interposer; a cycle found in the shadow graph is a proved deadlock; requests are also abandoned by their client while queued, and one storage operation in 41 fails during the load phase (a failing request must still finish and release its locks). A second child uses the real account fetcher: by-key single and batch requests over accounts created after start-up while accounts are being registered, with a 10 s no-progress watchdog; both children also run under the race detector. A finite run cannot decide liveness in general.",
+   "Liveness is restated as no wait-for cycle + bounded progress. Pairs of batches over ordered key selections are steered (A parked after its i-th lock until B reaches its j-th or a budget expires) for every position pair; 32 goroutines add random load with yields inside the interposer; a cycle found in the shadow graph is a proved deadlock; requests are also abandoned by their client while queued, and one storage operation in 41 fails during the load phase (a failing request must still finish and release its locks), and panics are injected while a batch's rules run (answered as the server's recovery interceptor answers them; the locks must be released all the same). A second child uses the real account fetcher: by-key single and batch requests over accounts created after start-up while accounts are being registered, with a 10 s no-progress watchdog; both children also run under the race detector. A finite run cannot decide liveness in general.",
    "Shadow holds are recorded after acquisition and cleared before release, so a shadow cycle is a real one.",
    "5/C15"),
  "C12": ("exploration",
@@ -73,12 +73,12 @@ CHECKS = {
    "5/C12"),
  "C13": ("fault_enumeration",
    "fault injection at every position of the prepare/execute/contribute message sequence (request and reply legs) with a no-account-anywhere / receiver-rejects / process-survives oracle, in child processes",
-   "For (n,t) in {(2,2),(3,2),(3,3),(4,3),(5,3)}: each fault kind (lost, error reply, duplicate, random share, genuine share for another id, altered commitment, genuine vector too short / too long, empty vector, truncated vector entry, empty share) is injected at every message position, on requests and on contribution replies; the generation must fail, no participant may hold the account, the receiver must reject an invalid contribution, and the process must survive (a death is attributed to the last logged case). A wire slice has the harness play two configured peers against a real daemon, so that faulty contributions and replies pass through the real gRPC sender and receiver.",
+   "For (n,t) in {(2,2),(3,2),(3,3),(4,3),(5,3)}: each fault kind (lost, error reply, duplicate, random share, genuine share for another id, altered commitment, genuine vector too short / too long, empty vector, truncated vector entry, empty share) is injected at every message position, on requests and on contribution replies; the generation must fail, no participant may hold the account, the receiver must reject an invalid contribution, and the process must survive (a death is attributed to the last logged case). A wire slice has the harness play two configured peers against a real daemon, so that faulty contributions and replies pass through the real gRPC sender and receiver; that daemon is the build with the race detector and both peers contribute concurrently (every reply must carry the caller's own share; a race report with an access in Dirk code is a violation).",
    "Faults injected by the routing sender; duplicate execute/contribute deliveries are judged only by consistency of a successful result.",
    "5/C13"),
  "C14": ("exploration",
    "runtime monitor: valid-partial-signature counting over exhaustive / sampled routings of conflicting duty pairs across real instances of a distributed account",
-   "For every (n,t) that generation accepts on clusters of 2..4 instances (each with its own slashing database), four kinds of conflicting duty pairs are routed to the instances in every combination of {none, D1, D2, both orders, concurrently, second duty hidden in a two-entry batch, first duty inside a batch, a stale refusable attestation in between, second duty by over-long key}; partial signatures are verified under the share keys; both duties must never reach t, and a duty that does must recover to a signature valid under the composite key.",
+   "For every (n,t) that generation accepts on clusters of 2..4 instances (each with its own slashing database), four kinds of conflicting duty pairs are routed to the instances in every combination of {none, D1, D2, both orders, concurrently, second duty hidden in a two-entry batch, first duty inside a batch, a stale refusable attestation in between, second duty by over-long key}; genesis pairs (two attestations 0->0, two blocks at slot 0) come first on each fresh account; partial signatures are verified under the share keys; both duties must never reach t, and a duty that does must recover to a signature valid under the composite key.",
    "All t for each n are attempted so that a weakened threshold bound would be exercised.",
    "5/C14"),
  "C16": ("exploration",
@@ -88,7 +88,7 @@ CHECKS = {
    "5/C16"),
  "C17": ("exploration",
    "runtime monitor: three-valued session model with an interval clock over seeded event sequences on real instances",
-   "Seeded sequences of prepare/execute/commit/abort/fabricated contributions/sleeps over two names on 3-instance clusters with a 1.5 s timeout; only the stated implications are asserted and only where the interval clock decides the session's state (unknown otherwise).",
+   "Seeded sequences of prepare/execute/commit/abort/fabricated contributions/sleeps over two names on 3-instance clusters with a 1.5 s timeout; only the stated implications are asserted and only where the interval clock decides the session's state (unknown otherwise). An execute-in-flight scenario aborts and re-prepares a name while a contribution is delayed in transit: the new generation must not be committable.",
    "Expiry is real-time in the code; assertions are skipped in the timing grey zone.",
    "5/C17"),
  "C18": ("exploration",
@@ -98,7 +98,7 @@ CHECKS = {
    "5/C18"),
  "C19": ("exploration",
    "runtime monitor on the real daemon over TLS/gRPC: 16 methods x 16 caller credential kinds x 2 CA configurations, plus forged session tickets, with state-effect check on the stopped daemon's directories",
-   "Every RPC of every registered service is called on a real dirk child process with certificates generated at run time; callers without a certificate from the configured authority must obtain nothing and change nothing, accepted callers get exactly what the permission table gives their subject common name (SAN and extra chain certificates must not count). Hostile certificates (self-signed, other authority, expired / not yet valid of each origin, server-only usage) are force-sent so that the server decides; a host trust store holding the other authority, source-port reuse by a different client, and TLS session resumption with tickets the caller minted itself under guessable keys are covered.",
+   "Every RPC of every registered service is called on a real dirk child process with certificates generated at run time; callers without a certificate from the configured authority must obtain nothing and change nothing, accepted callers get exactly what the permission table gives their subject common name (SAN and extra chain certificates must not count). Hostile certificates (self-signed, other authority, expired / not yet valid of each origin, server-only usage) are force-sent so that the server decides; a host trust store holding the other authority, source-port reuse by a different client, TLS session resumption with tickets the caller minted itself under guessable keys, and callers with different certificates served at the same time (on the daemon built with the race detector) are covered.",
    "Loopback TCP; state effects read after the daemon stops.",
    "5/C19"),
  "C20": ("exploration",
